@@ -301,11 +301,18 @@ theorem items_ok : (r : ExprList) → AllA pf r →
     rw [RendersSeq] at hR; subst hR
     obtain ⟨F', rfl⟩ : ∃ F', F = F' + 1 := ⟨F - 1, by omega⟩
     have hst' : At st (te ++ tRB :: rest) := by simpa using hst
-    obtain ⟨re, st2, h2, hee, h2a⟩ := slot0 pf T hA hS (h := tRB) (Or.inr (Or.inl rfl)) hst' (F := F') (by simp at hF; omega)
+    obtain ⟨t0, te', hte, hstart⟩ := slot_head pf hS
+    have hst0 : At st (t0 :: (te' ++ tRB :: rest)) := by rw [hte] at hst'; simpa using hst'
+    obtain ⟨pk, st0, hpk, hpt, _, hpa⟩ := peek_at hst0
+    have hc0 : (pk.typ == ItemType.tRightBracket) = false := by rw [hpt]; simp [hstart.2.2]
+    have hst0' : At st0 (te ++ tRB :: rest) := by rw [hte]; simpa using hpa.at
+    obtain ⟨re, st2, h2, hee, h2a⟩ := slot0 pf T hA hS (h := tRB) (Or.inr (Or.inl rfl)) hst0' (F := F') (by simp at hF; omega)
     obtain ⟨it, st3, hn, ht, _, hj⟩ := next_at h2a.at
     have ht' : it.typ = .tRightBracket := ht
     refine ⟨.cons re .nil, st3, ?_, by simp [eraseL, hee], hj.at⟩
     unfold parseListItems
+    rw [bind_ok hpk]
+    simp only [hc0, Bool.false_eq_true, if_false]
     rw [bind_ok h2, bind_ok hn]
     simp [ht']; rfl
   | .cons e2 r2, hall, e, te, tr, rest, F, st, hA, hS, hR, hst, hF => by
@@ -313,12 +320,19 @@ theorem items_ok : (r : ExprList) → AllA pf r →
     obtain ⟨F', rfl⟩ : ∃ F', F = F' + 1 := ⟨F - 1, by omega⟩
     simp at hF
     have hst' : At st (te ++ tComma :: (te2 ++ tr2 ++ tRB :: rest)) := by simpa using hst
-    obtain ⟨re, st2, h2, hee, h2a⟩ := slot0 pf T hA hS (h := tComma) (Or.inr (Or.inr (Or.inl rfl))) hst' (F := F') (by omega)
+    obtain ⟨t0, te', hte, hstart⟩ := slot_head pf hS
+    have hst0 : At st (t0 :: (te' ++ tComma :: (te2 ++ tr2 ++ tRB :: rest))) := by rw [hte] at hst'; simpa using hst'
+    obtain ⟨pk, st0, hpk, hpt, _, hpa⟩ := peek_at hst0
+    have hc0 : (pk.typ == ItemType.tRightBracket) = false := by rw [hpt]; simp [hstart.2.2]
+    have hst0' : At st0 (te ++ tComma :: (te2 ++ tr2 ++ tRB :: rest)) := by rw [hte]; simpa using hpa.at
+    obtain ⟨re, st2, h2, hee, h2a⟩ := slot0 pf T hA hS (h := tComma) (Or.inr (Or.inr (Or.inl rfl))) hst0' (F := F') (by omega)
     obtain ⟨it, st3, hn, ht, _, hj⟩ := next_at h2a.at
     have ht' : it.typ = .tComma := ht
     obtain ⟨l', st4, h4, he, h4a⟩ := items_ok r2 hall.2 e2 te2 tr2 rest F' st3 hall.1 hS2 hR2 hj.at (by omega)
     refine ⟨.cons re l', st4, ?_, by simp [eraseL] at he ⊢; simp [hee, he], h4a⟩
     unfold parseListItems
+    rw [bind_ok hpk]
+    simp only [hc0, Bool.false_eq_true, if_false]
     rw [bind_ok h2, bind_ok hn]
     have c1 : (ItemType.tComma == ItemType.tRightBracket) = false := rfl
     have c2 : (ItemType.tComma != ItemType.tComma) = false := rfl
@@ -584,7 +598,9 @@ theorem entries_ok : (r : MapItems) → AllM pf r →
     obtain ⟨re, st2, h2, hee, h2a⟩ := slot0 pf T hA hS (h := tComma) (Or.inr (Or.inr (Or.inl rfl))) hst' (F := F') (by omega)
     obtain ⟨it, st3, hn, ht, _, hj⟩ := next_at h2a.at
     have ht' : it.typ = .tComma := ht
-    obtain ⟨tok, st4, h4, _, h4v, hj4⟩ := expect_at hj.at
+    obtain ⟨pk, st3', hpk, hpt, _, hpa⟩ := peek_at hj.at
+    have hc0 : (pk.typ == ItemType.tRightBracket) = false := by rw [hpt]; rfl
+    obtain ⟨tok, st4, h4, _, h4v, hj4⟩ := expect_at hpa.at
     have h4v' : tok.val = q2 := h4v
     obtain ⟨_, st5, h5, _, _, hj5⟩ := expect_at hj4.at
     obtain ⟨m', st6, h6, he, h6a⟩ := entries_ok r2 hall.2 k2 e2 te2 tr2 rest (acc.set key re) F' st5 hall.1 hS2 hR2 hj5.at (by omega)
@@ -594,7 +610,9 @@ theorem entries_ok : (r : MapItems) → AllM pf r →
     have c1 : (ItemType.tComma == ItemType.tRightBracket) = false := rfl
     have c2 : (ItemType.tComma != ItemType.tComma) = false := rfl
     simp only [ht', c1, c2, Bool.false_eq_true, if_false]
-    have h4' : expect ItemType.tString st3 = .ok (tok, st4) := h4
+    rw [bind_ok hpk]
+    simp only [hc0, Bool.false_eq_true, if_false]
+    have h4' : expect ItemType.tString st3' = .ok (tok, st4) := h4
     rw [bind_ok h4']
     simp only [h4v', hq2]
     have h5' : expect ItemType.tColon st4 = .ok (_, st5) := h5
